@@ -23,11 +23,24 @@ Checks                                                                          
      problem with opt > 0) raises Infeasible                                                    [fva-pfba-sign-infeasible]
  * loopless=True: ranges inside the exact plain ranges [loopless-outside-plain], min <= max, and — on models whose
    internal bounds all contain zero (no forced loops, where the notion is unambiguous) and with at most
-   `max_cycle_reactions` reactions on internal cycles — equal to the brute-force cycle-free extremes
-   [loopless-fva-too-narrow: a true cycle-free extreme is missed; loopless-fva-too-wide: the reported extreme needs a cycle;
-    both with the suffix -objective-on-cycle when an objective reaction lies on an internal cycle, the case cobrapy's
-    documentation sets aside];
+   `max_cycle_reactions` reactions on internal cycles — each reported extreme equal to the brute-force cycle-free extreme
+   [loopless-fva-too-narrow: the reported extreme lies strictly inside the true cycle-free range; loopless-fva-too-wide: it
+    lies beyond it (needs a cycle); both with the suffix -objective-on-cycle when an objective reaction lies on an internal
+    cycle, the case cobrapy's documentation sets aside];
    any other exception than OptimizationError from the loopless sweep                           [loopless-fva-crash]
+
+Structure (known-finding protocol)
+ * seed-dependent part (models and configurations drawn from the `seed` argument): all plain-FVA checks; loopless calls only
+   on models without forced internal fluxes and only for containment in the exact plain ranges (on those inputs none of the
+   open finding classes can fire: the ValueError of `_add_cycle_free` needs a forced internal bound).  Clean on the current
+   tree for every seed.
+ * fixed part (constant internal seed FIXED_SEED_LOOPLESS, independent of `seed`; quick list = prefix of the thorough list;
+   thorough additionally one loopless call on `textbook`): per model the four calls direction x fraction in {1, 0} with
+   loopless=True, reaction_list=None, processes=1 (serial sweep over all reactions in model order, so every LP warm start is
+   reproducible).  All loopless checks run here: exactness against brute force, min <= max, containment, crash.
+   witness id  "loopless-fixed#<index>:<direction>:fraction=<f>:<reaction>:<minimum|maximum>"  (…":crash" for an exception);
+   every failing witness is reported (no cap).  Comparisons within a factor 100 of the tolerance are listed in
+   bounds["fixed_borderline_comparisons"] (none on the current tree).
 """
 import math
 import random
@@ -39,6 +52,7 @@ from bcc import c05_oracle as O
 from bcc import c19_gen as G
 
 KNOWN_KEYS = set()
+FIXED_SEED_LOOPLESS = 5005
 INF = float("inf")
 TOL = 1e-6
 LOOP_BOUNDS = [(0.0, 1000.0), (-1000.0, 1000.0), (0.0, 10.0), (-10.0, 10.0), (-1000.0, 0.0), (0.0, 5.0), (-5.0, 1000.0)]
@@ -65,7 +79,7 @@ def _call_fva(model, rl_kind, rids, **kw):
 
 def check_config(model, cfg, cache=None):
     """cfg: dict(direction, fraction, pfba, rl ('none'|'objects'|'ids'), rids (list or None), processes, loopless,
-    brute (bool)).  -> (list of (key, text), info)"""
+    brute (bool), loopless_checks ('all' | 'containment')).  -> (list of (key, text, detail), info)"""
     from cobra.exceptions import Infeasible, OptimizationError
     U.quiet()
     cache = {} if cache is None else cache
@@ -74,8 +88,8 @@ def check_config(model, cfg, cache=None):
            f"{'' if cfg['rids'] is None else cfg['rids']}, processes={cfg['processes']}, loopless={cfg['loopless']}) "
            f"[{cfg['direction']}]")
 
-    def bad(key, text):
-        out.append((key, f"{tag}: {text}"))
+    def bad(key, text, detail=""):
+        out.append((key, f"{tag}: {text}", detail))
 
     model.objective_direction = cfg["direction"]
     all_ids = [r.id for r in model.reactions]
@@ -117,7 +131,7 @@ def check_config(model, cfg, cache=None):
     except Exception as e:  # noqa
         res_info["raised"] = type(e).__name__
         key = "loopless-fva-crash" if cfg["loopless"] else "fva-crash"
-        bad(key, f"raised {type(e).__name__}: {e}")
+        bad(key, f"raised {type(e).__name__}: {e}", "crash")
         return out, res_info
 
     if sorted(res.index) != sorted(rids):
@@ -126,8 +140,8 @@ def check_config(model, cfg, cache=None):
     got = {r: (float(res.at[r, "minimum"]), float(res.at[r, "maximum"])) for r in rids}
     for r in rids:
         lo, hi = got[r]
-        if not (lo <= hi + TOL):
-            bad("fva-min-gt-max", f"{r}: minimum {lo} > maximum {hi}")
+        if not (lo <= hi + TOL) and not (cfg["loopless"] and cfg.get("loopless_checks") == "containment"):
+            bad("fva-min-gt-max", f"{r}: minimum {lo} > maximum {hi}", f"{r}:min-gt-max")
     if not cfg["loopless"]:
         for r in rids:
             elo, ehi = exact[r]
@@ -154,7 +168,8 @@ def check_config(model, cfg, cache=None):
             lo, hi = got[r]
             if (not _isinf(elo) and lo < float(elo) - TOL * max(1.0, abs(float(elo)))) or \
                     (not _isinf(ehi) and hi > float(ehi) + TOL * max(1.0, abs(float(ehi)))):
-                bad("loopless-outside-plain", f"{r}: loopless [{lo}, {hi}] not inside the exact plain range [{float(elo)}, {float(ehi)}]")
+                bad("loopless-outside-plain", f"{r}: loopless [{lo}, {hi}] not inside the exact plain range [{float(elo)}, {float(ehi)}]",
+                    f"{r}:outside-plain")
         if cfg.get("brute"):
             bk = ck + ("ll",)
             if bk not in cache:
@@ -172,14 +187,17 @@ def check_config(model, cfg, cache=None):
                         res_info["brute"] = dict(linfo, empty=True)
                         break
                     lo, hi = got[r]
-                    narrow = lo > float(blo) + TOL * max(1.0, abs(float(blo))) or hi < float(bhi) - TOL * max(1.0, abs(float(bhi)))
-                    wide = lo < float(blo) - TOL * max(1.0, abs(float(blo))) or hi > float(bhi) + TOL * max(1.0, abs(float(bhi)))
                     txt = (f"{r}: loopless FVA reports [{lo}, {hi}], brute-force cycle-free extremes [{float(blo)}, {float(bhi)}] "
                            f"(plain [{float(exact[r][0])}, {float(exact[r][1])}]; {linfo})")
-                    if narrow:
-                        bad("loopless-fva-too-narrow" + suffix, txt)
-                    if wide:
-                        bad("loopless-fva-too-wide" + suffix, txt)
+                    for side, g, b, sgn in (("minimum", lo, float(blo), 1.0), ("maximum", hi, float(bhi), -1.0)):
+                        tol = TOL * max(1.0, abs(b))
+                        diff = (g - b) * sgn          # > 0: reported extreme lies inside the true one (narrow), < 0: beyond it (wide)
+                        if tol / 100 < abs(diff) < tol * 100:
+                            res_info["borderline"] = True
+                        if diff > tol:
+                            bad("loopless-fva-too-narrow" + suffix, f"{side} of " + txt, f"{r}:{side}")
+                        elif diff < -tol:
+                            bad("loopless-fva-too-wide" + suffix, f"{side} of " + txt, f"{r}:{side}")
     return out, res_info
 
 
@@ -217,17 +235,101 @@ def _plans(rng, model, tier):
     return plans
 
 
+def _zero_ok(model):
+    """no forced internal flux: every internal bound pair contains zero (then _add_cycle_free cannot produce lb > ub)"""
+    return all(r._lower_bound <= 0 <= r._upper_bound for r in model.reactions if len(r._metabolites) != 1)
+
+
 def _loopless_plans(rng, model, tier, max_cyc):
+    """seed-dependent loopless calls: containment in the exact plain ranges only (the exactness comparison, min <= max and
+    the forced-flux models, on which the open finding classes fire, run on the fixed list)"""
+    if not _zero_ok(model):
+        return []
     all_ids = [r.id for r in model.reactions]
-    zero_ok = all(r._lower_bound <= 0 <= r._upper_bound for r in model.reactions if len(r._metabolites) != 1)
     plans = []
     for direction in ("max", "min"):
         for fraction in (1.0, 0.0):
             sub = None if rng.random() < 0.6 else rng.sample(all_ids, rng.randint(1, len(all_ids)))
             plans.append(dict(direction=direction, fraction=fraction, pfba=None, rl="none" if sub is None else rng.choice(["objects", "ids"]),
-                              rids=sub, processes=rng.choice([1, 1, 1, 2]), loopless=True, brute=zero_ok,
-                              max_cycle_reactions=max_cyc))
+                              rids=sub, processes=rng.choice([1, 1, 2]), loopless=True, brute=False, loopless_checks="containment"))
     return plans
+
+
+def _loop_model(rng):
+    if rng.random() < 0.6:
+        feats = [f for f in ["duplicate", "antiparallel", "cycle"] if rng.random() < 0.5]
+        return G.structured_model(rng, n_core=rng.randint(2, 3), n_conv=rng.randint(1, 3), with_rules=False, features=feats,
+                                  bounds=LOOP_BOUNDS)
+    return gen.random_model(rng, n_mets=rng.randint(2, 3), n_rxns=rng.randint(2, 4), with_genes=False,
+                            bounds=LOOP_BOUNDS + [(1.0, 10.0), (2.0, 2.0), (0.0, INF)])
+
+
+def fixed_loopless_cases(n):
+    """seed-independent list of model descriptions: the corner models, then loop-family models from a constant seed
+    (a prefix for smaller n)"""
+    U.quiet()
+    rng = random.Random(FIXED_SEED_LOOPLESS)
+    out = [U.describe(m) for m in corner_models()]
+    while len(out) < n:
+        out.append(U.describe(_loop_model(rng)))
+    return out[:n]
+
+
+def _fixed_cfgs(model, max_cyc):
+    z = _zero_ok(model)
+    return [dict(direction=d, fraction=f, pfba=None, rl="none", rids=None, processes=1, loopless=True, brute=z,
+                 max_cycle_reactions=max_cyc) for d in ("max", "min") for f in (1.0, 0.0)]
+
+
+def _new_res():
+    return {"evals": 0, "skipped": 0, "sigs": {}, "fails": [], "samples": [], "raised": {}, "brute": 0, "brute_empty": 0,
+            "loopless": 0, "borderline": []}
+
+
+def _account(res, cfg, info):
+    res["evals"] += 1
+    if cfg["loopless"]:
+        res["loopless"] += 1
+        b = info.get("brute")
+        if b and "acyclic_patterns" in b:
+            res["brute" if not b.get("empty") else "brute_empty"] += 1
+    if info.get("raised"):
+        res["raised"][info["raised"]] = res["raised"].get(info["raised"], 0) + 1
+
+
+def _fixed_task(task):
+    """one fixed case = one model, four loopless calls (serial, all reactions: deterministic warm starts);
+    every failure carries its witness id and is kept"""
+    i, desc, max_cyc = task
+    U.quiet()
+    res = _new_res()
+    tagi = f"{i:03d}" if isinstance(i, int) else i
+    if "shipped" in desc:
+        m0 = _build(desc)
+        ids = [r.id for r in m0.reactions if len(r._metabolites) != 1]
+        sub = random.Random(FIXED_SEED_LOOPLESS).sample(ids, 12)
+        cfgs = [dict(direction="max", fraction=1.0, pfba=None, rl="ids", rids=sub, processes=1, loopless=True, brute=False)]
+    else:
+        cfgs = _fixed_cfgs(_build(desc), max_cyc)
+    cache = {}
+    for cfg in cfgs:
+        try:
+            fails, info = check_config(_build(desc), cfg, cache)
+        except Exception as e:  # noqa
+            import traceback
+            fails, info = [("driver-error", f"check raised {e!r}: {traceback.format_exc()[-500:]}", "error")], {"domain": True}
+        if not info.get("domain"):
+            res["skipped"] += 1
+            continue
+        _account(res, cfg, info)
+        wbase = f"loopless-fixed#{tagi}:{cfg['direction']}:fraction={cfg['fraction']}"
+        if info.get("borderline"):
+            res["borderline"].append(wbase)
+        res["sigs"][wbase] = bool(info.get("nontrivial")) and not info.get("raised")
+        for k, text, detail in fails:
+            w = f"{wbase}:{detail}"
+            res["fails"].append((k, text, {"model": desc, "cfg": cfg, "key": k, "detail": detail, "witness": w}, 0, w, True))
+    return res
 
 
 def _build(desc):
@@ -245,11 +347,11 @@ def _shipped_plans(rng, idx):
             dict(direction="max", fraction=0.5, pfba=1.5, rl="ids", rids=sub(20), processes=1, loopless=False),
             dict(direction="max", fraction=0.0, pfba=None, rl="objects", rids=sub(30), processes=2, loopless=False),
             dict(direction="min", fraction=1.0, pfba=None, rl="objects", rids=sub(30), processes=1, loopless=False),
-            dict(direction="max", fraction=1.0, pfba=1.0, rl="none", rids=None, processes=2, loopless=False),
-            dict(direction="max", fraction=1.0, pfba=None, rl="ids", rids=sub(12), processes=1, loopless=True, brute=False)][idx]
+            dict(direction="max", fraction=1.0, pfba=1.0, rl="none", rids=None, processes=2, loopless=False)][idx]
 
 
 def _task(task):
+    """seed-dependent part"""
     kind, seed, idx, n, tier, max_cyc = task
     U.quiet()
     rng = random.Random(seed * 1000003 + idx * 7 + {"plain": 1, "loop": 2, "corner": 3, "net": 4, "shipped": 5}[kind])
@@ -269,18 +371,9 @@ def _task(task):
             if len(mm.reactions) <= (14 if big else 9):
                 ms.append((mm, "plain"))
     else:
-        ms = []
-        for _ in range(n):
-            if rng.random() < 0.6:
-                feats = [f for f in ["duplicate", "antiparallel", "cycle"] if rng.random() < 0.5]
-                ms.append((G.structured_model(rng, n_core=rng.randint(2, 3), n_conv=rng.randint(1, 3), with_rules=False,
-                                              features=feats, bounds=LOOP_BOUNDS), "loop"))
-            else:
-                ms.append((gen.random_model(rng, n_mets=rng.randint(2, 3), n_rxns=rng.randint(2, 4), with_genes=False,
-                                            bounds=LOOP_BOUNDS + [(1.0, 10.0), (2.0, 2.0), (0.0, INF)]), "loop"))
-    res = {"evals": 0, "skipped": 0, "sigs": {}, "fails": [], "samples": [], "raised": {}, "brute": 0, "brute_empty": 0,
-           "loopless": 0}
-    for m, what in ms:
+        ms = [(_loop_model(rng), "loop") for _ in range(n)]
+    res = _new_res()
+    for j, (m, what) in enumerate(ms):
         if isinstance(m, dict):
             desc, sig, plans = m, hash(m["shipped"]), what
         else:
@@ -292,37 +385,37 @@ def _task(task):
             if what in ("loop", "both"):
                 plans += _loopless_plans(rng, m, tier, max_cyc)
         cache = {}
-        for cfg in plans:
+        for c, cfg in enumerate(plans):
             mm = _build(desc)
             try:
                 fails, info = check_config(mm, cfg, cache)
             except Exception as e:  # noqa
                 import traceback
-                fails, info = [("driver-error", f"check raised {e!r}: {traceback.format_exc()[-500:]}")], {"domain": True}
+                fails, info = [("driver-error", f"check raised {e!r}: {traceback.format_exc()[-500:]}", "error")], {"domain": True}
             if not info.get("domain"):
                 res["skipped"] += 1
                 continue
-            res["evals"] += 1
-            if cfg["loopless"]:
-                res["loopless"] += 1
-                b = info.get("brute")
-                if b and "acyclic_patterns" in b:
-                    res["brute" if not b.get("empty") else "brute_empty"] += 1
-            if info.get("raised"):
-                res["raised"][info["raised"]] = res["raised"].get(info["raised"], 0) + 1
+            _account(res, cfg, info)
             key = (sig, cfg["direction"], cfg["fraction"], cfg["pfba"], cfg["rl"], tuple(cfg["rids"] or ()), cfg["processes"], cfg["loopless"])
             res["sigs"][key] = bool(info.get("nontrivial")) and not info.get("raised")
-            for k, text in fails:
-                res["fails"].append((k, text, {"model": desc, "cfg": cfg, "key": k}, U.size_of(desc) if "reactions" in desc else 10**6))
+            for k, text, detail in fails:
+                w = f"seed{seed}:{kind}#{idx}.{j}.{c}:{detail}"
+                res["fails"].append((k, text, {"model": desc, "cfg": cfg, "key": k, "detail": detail, "witness": w},
+                                     U.size_of(desc) if "reactions" in desc else 10**6, w, False))
             if not res["samples"] and info.get("nontrivial") and not fails and cfg["pfba"] is not None and "reactions" in desc:
                 res["samples"].append({"model": desc, "cfg": cfg})
     return res
 
 
+def _dispatch(t):
+    return _fixed_task(t[1]) if t[0] == "fixed" else _task(t[1])
+
+
 TIERS = {
-    "quick": {"plain_chunks": 72, "plain_n": 1, "net_chunks": 24, "net_n": 1, "loop_chunks": 60, "loop_n": 2, "max_cyc": 4},
-    "thorough": {"plain_chunks": 256, "plain_n": 3, "net_chunks": 128, "net_n": 2, "loop_chunks": 256, "loop_n": 4, "max_cyc": 6,
-                 "shipped": 6},
+    "quick": {"plain_chunks": 72, "plain_n": 1, "net_chunks": 24, "net_n": 1, "loop_chunks": 40, "loop_n": 2, "max_cyc": 4,
+              "fixed_loopless": 108},
+    "thorough": {"plain_chunks": 256, "plain_n": 3, "net_chunks": 128, "net_n": 2, "loop_chunks": 128, "loop_n": 4, "max_cyc": 6,
+                 "shipped": 5, "fixed_loopless": 308, "fixed_shipped": True},
 }
 
 
@@ -330,20 +423,28 @@ def run(tier, seed):
     t0 = time.time()
     U.quiet()
     cfg = TIERS[tier]
+    ftasks = [(i, d, cfg["max_cyc"]) for i, d in enumerate(fixed_loopless_cases(cfg["fixed_loopless"]))]
+    if cfg.get("fixed_shipped"):
+        ftasks.insert(0, ("textbook", {"shipped": "textbook"}, cfg["max_cyc"]))
     tasks = [("shipped", seed, i, 1, tier, cfg["max_cyc"]) for i in range(cfg.get("shipped", 0))]         # heaviest first
-    tasks += [("loop", seed, i, cfg["loop_n"], tier, cfg["max_cyc"]) for i in range(cfg["loop_chunks"])]
     tasks += [("corner", seed, 0, 0, tier, cfg["max_cyc"])]
+    tasks += [("loop", seed, i, cfg["loop_n"], tier, cfg["max_cyc"]) for i in range(cfg["loop_chunks"])]
     tasks += [("plain", seed, i, cfg["plain_n"], tier, cfg["max_cyc"]) for i in range(cfg["plain_chunks"])]
     tasks += [("net", seed, i, cfg["net_n"], tier, cfg["max_cyc"]) for i in range(cfg["net_chunks"])]
-    results = U.run_pool(_task, tasks, nested=True)
+    n_fixed = len(ftasks)
+    order = [("seed", t) for t in tasks[:cfg.get("shipped", 0)]] + [("fixed", t) for t in ftasks] + \
+            [("seed", t) for t in tasks[cfg.get("shipped", 0):]]
+    results = U.run_pool(_dispatch, order, nested=True)
     F = U.Failures(per_key=2)
-    sigs, samples, evals, skipped, raised, brute, brute_empty, loopless = {}, [], 0, 0, {}, 0, 0, 0
-    for r in results:
-        evals += r["evals"]
-        skipped += r["skipped"]
-        brute += r["brute"]
-        brute_empty += r["brute_empty"]
-        loopless += r["loopless"]
+    sigs, samples, raised, borderline = {}, [], {}, []
+    tot = {k: 0 for k in ("evals", "skipped", "brute", "brute_empty", "loopless")}
+    fixed_calls = 0
+    for (what, _), r in zip(order, results):
+        for k in tot:
+            tot[k] += r[k]
+        if what == "fixed":
+            fixed_calls += r["evals"]
+        borderline += r["borderline"]
         for k, v in r["sigs"].items():
             sigs[k] = sigs.get(k, False) or v
         for k, v in r["raised"].items():
@@ -352,25 +453,30 @@ def run(tier, seed):
         samples += r["samples"]
     n_models = 8 + cfg["plain_chunks"] * cfg["plain_n"] + cfg["net_chunks"] * cfg["net_n"] + cfg["loop_chunks"] * cfg["loop_n"]
     return {
-        "evaluations": evals,
+        "evaluations": tot["evals"],
         "distinct_nontrivial": sum(1 for v in sigs.values() if v),
         "rule": "evaluation = one flux_variability_analysis call, configuration (model, direction, fraction_of_optimum, pfba_factor, "
                 "reaction_list None/objects/ids, processes, loopless) inside the statement's domain (exact FBA optimum exists; "
                 "fraction < 1 only when the optimum has the sign of the direction); every reported number is compared with the exact "
-                "rational optimum of the documented problem (loopless: brute force over sign patterns of cycle reactions). "
-                "distinct = distinct (model structure, configuration); non-trivial = FVA returned and at least one requested exact "
-                "range is not a single point",
-        "bounds": {"tier": tier, "seed": seed, "models_generated": n_models, "fractions": [0.0, 0.5, 1.0], "pfba_factors": [None, 1.0, 1.5],
+                "rational optimum of the documented problem. Loopless exactness (brute force over sign patterns of cycle reactions), "
+                "loopless min <= max and loopless on forced-flux models run on a fixed, seed-independent case list (witness ids); the "
+                "seed-dependent part checks loopless calls for containment in the exact plain ranges. "
+                "distinct = distinct (model structure, configuration) resp. fixed call; non-trivial = FVA returned and at least one "
+                "requested exact range is not a single point",
+        "bounds": {"tier": tier, "seed": seed, "seed_models_generated": n_models, "fixed_loopless_models": n_fixed,
+                   "fixed_loopless_calls": fixed_calls, "fixed_borderline_comparisons": sorted(borderline),
+                   "fractions": [0.0, 0.5, 1.0], "pfba_factors": [None, 1.0, 1.5],
                    "processes": [1, 2], "random_models": "bcc.gen.random_model (<=4 metabolites, <=5 internal reactions, full BOUNDS), "
                    "bcc.c19_gen.structured_model (<=4 core metabolites), 8 corner models",
                    "shipped_model_calls": ("textbook x %d configurations" % cfg.get("shipped", 0)),
-                   "loopless_calls": loopless, "loopless_calls_compared_with_brute_force": brute,
-                   "loopless_calls_without_cycle_free_point": brute_empty, "max_cycle_reactions_brute_force": cfg["max_cyc"],
-                   "configurations_outside_domain_skipped": skipped, "calls_that_raised": raised,
+                   "loopless_calls": tot["loopless"], "loopless_calls_compared_with_brute_force": tot["brute"],
+                   "loopless_calls_without_cycle_free_point": tot["brute_empty"], "max_cycle_reactions_brute_force": cfg["max_cyc"],
+                   "configurations_outside_domain_skipped": tot["skipped"], "calls_that_raised": raised,
                    "wall_seconds": round(time.time() - t0, 1)},
         "exhaustive": False,
         "samples": samples[:2],
         "failures": F.as_list(),
+        "witnesses": F.witnesses(),
     }
 
 
@@ -378,6 +484,6 @@ def replay(payload_replay):
     U.quiet()
     m = _build(payload_replay["model"])
     fails, _ = check_config(m, payload_replay["cfg"])
-    key = payload_replay.get("key")
-    hits = [t for k, t in fails if key is None or k == key]
+    key, detail = payload_replay.get("key"), payload_replay.get("detail")
+    hits = [t for k, t, d in fails if (key is None or k == key) and (detail is None or d == detail)]
     return "; ".join(hits[:5]) if hits else None
